@@ -114,6 +114,10 @@ func mutProfile(r *rand.Rand) (gen.Profile, gen.DataCfg) {
 	if r.Intn(3) == 0 {
 		p.CommandOnly = 1
 	}
+	if r.Intn(4) == 0 {
+		// many services, many mutation root fields: one operation touches five and more services at one depth
+		p.MaxServices, p.MutationRoots = 9, [2]int{6, 8}
+	}
 	return p, d
 }
 
@@ -133,6 +137,9 @@ func (p c06) Gen(c *run.Ctx, idx int) (json.RawMessage, error) {
 	prof := coreOpProfile()
 	prof.Kind = ast.Mutation
 	prof.MaxRoots = 3
+	if cu.u.K >= 5 {
+		prof.MaxRoots = 8
+	}
 	prof.PAlias = 0.2
 	prof.Pool = cu.spec.Data.Pool
 	if idx%4 == 3 {
